@@ -698,6 +698,7 @@ type run struct {
 	out      *hx.Out
 	global   map[string]seen // real hash -> first valid claim with that hash
 	reported map[string]bool
+	nViol    map[string]int
 }
 
 // emit prints the claim and returns (hash, verdict, line)
@@ -706,6 +707,14 @@ func (r *run) emit(k *kind, c claim) (string, string, string) {
 	h, v := hashOf(c), verdict(c)
 	r.record(k, c, h, v, line)
 	return h, v, line
+}
+
+// violate records a monitor violation, at most twice per description (the shared cap is 50 in total)
+func (r *run) violate(desc string, replay []string) {
+	r.nViol[desc]++
+	if r.nViol[desc] <= 2 {
+		r.out.ViolateWith(desc, replay)
+	}
 }
 
 func (r *run) record(k *kind, c claim, h, v, line string) {
@@ -722,7 +731,7 @@ func (r *run) record(k *kind, c claim, h, v, line string) {
 	}
 	if (prev.kind != k.name || prev.effect != eff) && !r.reported[h] {
 		r.reported[h] = true
-		r.out.ViolateWith(fmt.Sprintf("%s and %s: two valid claims with different executed effect share a ClaimHash (global search)", prev.kind, k.name),
+		r.violate(fmt.Sprintf("%s and %s: two valid claims with different executed effect share a ClaimHash (global search)", prev.kind, k.name),
 			[]string{prev.line, line, "# both pass ValidateBasic; real ClaimHash of both = " + h})
 	}
 }
@@ -740,7 +749,7 @@ func (r *run) against(k *kind, what string, a claim, ha, va, la string, b claim)
 		r.out.Nontrivial(k.tag + ":" + what)
 		if ha == hb && k.effect(a) != k.effect(b) {
 			r.reported[ha] = true
-			r.out.ViolateWith(fmt.Sprintf("%s: valid claims differing only in %s share a ClaimHash", k.name, what),
+			r.violate(fmt.Sprintf("%s: valid claims differing only in %s share a ClaimHash", k.name, what),
 				[]string{la, lb, "# both pass ValidateBasic; real ClaimHash of both = " + ha, fmt.Sprintf("# a = %+v", a), fmt.Sprintf("# b = %+v", b)})
 		}
 	}
@@ -787,13 +796,14 @@ func TestC03(t *testing.T) {
 	out := hx.NewOut()
 	rng := rand.New(rand.NewSource(hx.Seed()))
 	g := &gen{rng: rng}
-	r := &run{out: out, global: map[string]seen{}, reported: map[string]bool{}}
+	r := &run{out: out, global: map[string]seen{}, reported: map[string]bool{}, nViol: map[string]int{}}
 	ks := kinds()
 	byTag := map[string]*kind{}
 	for _, k := range ks {
 		byTag[k.tag] = k
 	}
 	r.witnesses(byTag)
+	keeperScenarios(t, r, byTag)
 
 	nBase := hx.N(120, 1500) // base claims per type
 	for _, k := range ks {
